@@ -213,7 +213,7 @@ def orders(k, max_full=4, max_inv=2):
     return out
 
 
-def explore_orders(thunk, deviations=1, max_full=4, only_call=None):
+def explore_orders(thunk, deviations=1, max_full=4, only_call=None, pair_first=None):
     """run ``thunk`` under every schedule in which at most ``deviations`` Parallel calls use a
     non-identity task order.  Yields (schedule, Outcome-like (ok, value/exc)).  The first run
     (identity everywhere) discovers the call sizes."""
@@ -232,6 +232,19 @@ def explore_orders(thunk, deviations=1, max_full=4, only_call=None):
     calls, base = run({})
     yield {}, calls, base
     multi = [(c, k) for c, k in enumerate(calls) if k > 1]
+    if pair_first is not None:
+        # shard of the two-deviation space: the first deviating call is the pair_first-th
+        # multi-task call, the second any later one (single deviations belong to other shards)
+        for (c1, k1), (c2, k2) in itertools.combinations(multi, 2):
+            if c1 != (multi[pair_first][0] if pair_first < len(multi) else None):
+                continue
+            for p1 in orders(k1, 3, 1):
+                for p2 in orders(k2, 3, 1):
+                    if p1 == list(range(k1)) or p2 == list(range(k2)):
+                        continue
+                    calls2, val = run({c1: p1, c2: p2})
+                    yield {c1: p1, c2: p2}, calls2, val
+        return
     if only_call is not None:
         # shard: deviate only in the only_call-th multi-task Parallel call
         multi = multi[only_call:only_call + 1]
